@@ -608,7 +608,7 @@ structure CState where
   crashed : Bool := false        -- some reader took a SIGSEGV
   panicked : Bool := false       -- memguard's `core.Panic` (only under library faults)
   badRead : Bool := false        -- some reader saw bytes other than the secret's
-  faulted : Bool := false        -- ghost: a fault was injected so far
+  faulted : Bool := false        -- ghost: some step so far ran with a non-empty fault oracle
   closeRets : Nat := 0           -- ghost: number of Close calls that have returned nil
   inuse : Int := 1
 deriving Repr, Inhabited
@@ -633,34 +633,36 @@ def closeStep (st : CState) (tid : Nat) (t : Thread) (s : Sec) (fl : List Bool) 
               closeRets := st.closeRets + (if o.res == .ok then 1 else 0),
               inuse := st.inuse + inuseDelta o.evs }
 
+/-- one atomic step of the running-or-waiting thread `t` = `st.threads[tid]`. -/
+def cstepCore (st : CState) (tid : Nat) (t : Thread) (a : Act) (fl : List Bool) : CState :=
+  match t.wait, a with
+  | some true, .wake => closeStep st tid t st.sec fl
+  | some _, _ => st
+  | none, .access =>
+    let o := access st.pf st.sec fl
+    if o.res == .ok then { st with sec := o.sec, threads := st.threads.set tid { t with depth := t.depth + 1 } }
+    else { st with sec := o.sec }
+  | none, .touch =>
+    if t.depth == 0 then st else
+    match touch st.sec with
+    | .fault => { st with crashed := true }
+    | .bytes c => { st with badRead := st.badRead || c != st.sec.born }
+  | none, .release =>
+    if t.depth == 0 then st else
+    let o := release st.sec fl
+    let ts := st.threads.set tid { t with depth := t.depth - 1 }
+    { st with sec := o.sec, threads := if st.pf.releaseBroadcasts then signalAll ts else ts }
+  | none, .closeCall => closeStep st tid t { st.sec with closing := true } fl
+  | none, .isClosed => st
+  | none, .wake => st
+
 /-- one atomic step of thread `tid`; a step that is not enabled (or comes after a crash/panic took
 the process down) leaves the state unchanged. -/
 def cstep (st : CState) (tid : Nat) (a : Act) (fl : List Bool) : CState :=
   if st.crashed || st.panicked then st else
   match st.threads[tid]? with
   | none => st
-  | some t =>
-    let st := { st with faulted := st.faulted || fl.any id }
-    match t.wait, a with
-    | some true, .wake => closeStep st tid t st.sec fl
-    | some _, _ => st
-    | none, .access =>
-      let o := access st.pf st.sec fl
-      if o.res == .ok then { st with sec := o.sec, threads := st.threads.set tid { t with depth := t.depth + 1 } }
-      else { st with sec := o.sec }
-    | none, .touch =>
-      if t.depth == 0 then st else
-      match touch st.sec with
-      | .fault => { st with crashed := true }
-      | .bytes c => { st with badRead := st.badRead || c != st.sec.born }
-    | none, .release =>
-      if t.depth == 0 then st else
-      let o := release st.sec fl
-      let ts := st.threads.set tid { t with depth := t.depth - 1 }
-      { st with sec := o.sec, threads := if st.pf.releaseBroadcasts then signalAll ts else ts }
-    | none, .closeCall => closeStep st tid t { st.sec with closing := true } fl
-    | none, .isClosed => st
-    | none, .wake => st
+  | some t => cstepCore { st with faulted := st.faulted || !fl.isEmpty } tid t a fl
 
 def crun (st : CState) : List (Nat × Act × List Bool) → CState
   | [] => st
